@@ -234,6 +234,20 @@ def fmtG (f : F64) : Bytes :=
           else 46 :: (List.replicate (-dp).toNat 48 ++ ds.drop dp.toNat)
         sign ++ ip ++ fp
 
+/-- Exact widening float32 → float64 (Go `float64(f32)`). -/
+def ofF32Bits (b : Nat) : F64 :=
+  let neg := b / 2 ^ 31 % 2 == 1
+  let e := b / 2 ^ 23 % 256
+  let fr := b % 2 ^ 23
+  if e == 255 then ofParts neg 2047 (fr * 2 ^ 29)
+  else if e == 0 then
+    if fr == 0 then ofParts neg 0 0
+    else
+      -- subnormal float32: fr × 2^-149, normal in float64
+      let k := Nat.log2 fr                 -- position of the leading bit
+      ofParts neg (k + 874) ((fr * 2 ^ (52 - k)) % 2 ^ 52)
+  else ofParts neg (e + 896) (fr * 2 ^ 29)
+
 /-- `big.Int.Float64()` exactness and result: the float64 equal to `i`, if one exists. -/
 def ofIntExact? (i : Int) : Option F64 :=
   if i == 0 then some 0 else
